@@ -128,6 +128,10 @@ def parse_rule(text):
                 segkey = max(segkey, 2)
             elif conv == "path":
                 frag = "[^/].*?"
+                if branch and m.end() == len(seg) and body.endswith("/" + seg) and out.count("(?P<") == body.count("<") - 1:
+                    # a path value in front of the branch slash does not itself end in '/'
+                    # ('/x//' is not p='x/' plus the slash)
+                    frag = "[^/](?:.*?[^/])?"
                 segkey = 3
             else:
                 raise ValueError(conv)
@@ -254,10 +258,6 @@ def body_match(I, X, mi=0, order=0, strict=True, merge=True, n=3, method="GET", 
     # a percent sign the client sent as %25) only where the caller asks for it (C12)
     X.assume(pnone_in(tail, [0x3F, 0x23] if pct else [0x25, 0x3F, 0x23]))
     path = pconcat("/", tail)
-    if any(isinstance(t, str) and "<path:" in t and t.endswith(">/") for t in ALL_MAPS()[mi]):
-        # a path value does not end with '/' (converter's canonical domain): '/x//' is not read
-        # as p='x/' plus the branch slash
-        X.assume(pnot(pendswith(path, "//")))
     if not strict:
         # outside the claim: with strict_slashes off a branch rule also swallows a doubled
         # trailing slash ('/a//' matches '/a/'); the declarative reading does not say so
@@ -583,7 +583,8 @@ def obligations(tier, seed, prop="C03"):
     out = []
     quick = tier == "quick"
     orders = [0, 3, 5] if quick else [0, 1, 2, 3, 4, 5]
-    for mi in list(range(len(MAPS))) + [len(MAPS) + len(EXTRA_MAPS) + k for k in range(len(MORE_MAPS))]:
+    # (+ the path-branch map of the redirect family: what a branch path rule admits is a matching question too)
+    for mi in list(range(len(MAPS))) + [len(MAPS) + len(EXTRA_MAPS) + k for k in range(len(MORE_MAPS))] + [len(ALL_MAPS()) - 1]:
         for order in orders:
             for strict, merge in [(True, True), (True, False), (False, True), (False, False)]:
                 methods = ["GET", "POST"] if any("|" in t for t in ALL_MAPS()[mi]) else ["GET"]
